@@ -51,6 +51,9 @@ type Burst struct {
 	Follow     string     `json:"follow,omitempty"` // "" | cancel | run
 	Bystanders int        `json:"bystanders,omitempty"`
 	Reps       int        `json:"reps,omitempty"`
+	// Callers: "done" = every RunJob / CancelJob of the burst (lanes, sequential phase, follow-up) is made with
+	// a CALLER context that is already cancelled.  The model ignores it; the laws hold whatever it is.
+	Callers string `json:"callers,omitempty"`
 }
 
 type BLane struct {
@@ -67,6 +70,7 @@ type BObs struct {
 	Reuse   string  `json:"reuse"`
 	Panic   bool    `json:"panic"`
 	Hung    bool    `json:"hung"`
+	Note    string  `json:"note,omitempty"` // evidence only: the text of an error outside the scheduler's set that a call returned
 	Count   int     `json:"count"`
 }
 
@@ -147,6 +151,9 @@ func normaliseBurst(b Burst) Burst {
 	if b.Bystanders > 4 {
 		b.Bystanders = 4
 	}
+	if b.Callers != "done" && b.Callers != "expired" {
+		b.Callers = ""
+	}
 	return b
 }
 
@@ -208,6 +215,18 @@ func burstBody(b Burst, st *bshared) {
 		}
 	}
 	counters := make([]atomic.Int64, nSched+1)
+	callCtx, callRelease := callerCtx(rootCtx, b.Callers)
+	defer callRelease()
+	// an error outside the scheduler's set reads as a call that did not return a result of the model
+	bcode := func(err error) string {
+		if c := codeOf(err); c != "Foreign" {
+			return c
+		}
+		st.mu.Lock()
+		st.obs.Note = "a call returned an error outside the scheduler's set: " + err.Error()
+		st.mu.Unlock()
+		return "Hung"
+	}
 	do := func(jctx context.Context, op string, id int) string {
 		switch op {
 		case "ctx":
@@ -227,9 +246,9 @@ func burstBody(b Burst, st *bshared) {
 			}
 			return codeOf(svc.ScheduleJob(jctx, "c02", jobName, t0.Add(ms(b.Due)), f))
 		case "cancel":
-			return codeOf(svc.CancelJob(rootCtx, jobName))
+			return bcode(svc.CancelJob(callCtx, jobName))
 		case "run":
-			return codeOf(svc.RunJob(rootCtx, jobName))
+			return bcode(svc.RunJob(callCtx, jobName))
 		}
 		return "Hung"
 	}
@@ -361,9 +380,9 @@ func burstBody(b Burst, st *bshared) {
 	follow := "None"
 	switch b.Follow {
 	case "cancel":
-		follow = strip(codeOf(svc.CancelJob(rootCtx, jobName)))
+		follow = strip(bcode(svc.CancelJob(callCtx, jobName)))
 	case "run":
-		follow = strip(codeOf(svc.RunJob(rootCtx, jobName)))
+		follow = strip(bcode(svc.RunJob(callCtx, jobName)))
 	}
 	synctest.Wait()
 	tick()
@@ -468,6 +487,7 @@ func runBurstOnce(t *testing.T, b Burst) BObs {
 		o := emptyBObs(b)
 		o.Hung = true
 		o.Panic = st.obs.Panic
+		o.Note = st.obs.Note
 		return o
 	}
 	o := st.obs
@@ -480,7 +500,7 @@ func runBurstOnce(t *testing.T, b Burst) BObs {
 	}
 	if o.Hung {
 		h := emptyBObs(b)
-		h.Hung, h.Panic = true, o.Panic
+		h.Hung, h.Panic, h.Note = true, o.Panic, o.Note
 		return h
 	}
 	// lanes with the same operations are interchangeable: sort their observations
@@ -664,6 +684,11 @@ func genBurst(r *Rand) (Burst, []string) {
 		tags = append(tags, "burst:periodic")
 	} else {
 		tags = append(tags, "burst:oneoff")
+	}
+	// drawn last: the bursts of a seed are what they were, one in four with dead caller contexts
+	if r.Chance(1, 4) {
+		b.Callers = []string{"done", "expired"}[r.Intn(2)]
+		tags = append(tags, "burst:callers-"+b.Callers)
 	}
 	return b, tags
 }
